@@ -93,6 +93,8 @@ def check(stream, adj, o):
     for cls, et, ev, where in o.handle_errors:
         fail("raises/%s@%s" % (et, where.split(",")[1].strip() if "," in where else "?"),
              "%s reached the last-resort handler of %s: %s (%s)" % (et, cls, ev, where.strip()[:160]))
+    if o.spin:
+        fail("spin", "the loop spins without making progress (%d bytes pending)" % o.pending_out)
     if fails:
         return fails, {"raised"}
     labels = set()
